@@ -85,6 +85,12 @@ impl FromStr for ZcashAddress {
                 }
             };
 
+            // The conversion from 5-bit to 8-bit groups must not leave more than four
+            // padding bits, and they must all be zero (BIP 173); otherwise several strings
+            // would decode to the same address.
+            if parsed.validate_segwit_padding().is_err() {
+                return Err(ParseError::InvalidEncoding);
+            }
             let data = parsed.byte_iter().collect::<Vec<_>>();
 
             return data
@@ -107,6 +113,9 @@ impl FromStr for ZcashAddress {
                 }
             };
 
+            if parsed.validate_segwit_padding().is_err() {
+                return Err(ParseError::InvalidEncoding);
+            }
             let data = parsed.byte_iter().collect::<Vec<_>>();
 
             return data
